@@ -19,6 +19,9 @@ sys.path.insert(0, os.path.dirname(os.path.abspath(__file__)))
 import vlib  # noqa: E402
 
 
+BATCH = 400
+
+
 def run_cases(wc, pid, cases, timeout=900, sub=None, par=1):
     """cases: list of case texts.  Returns list of (obs, model, oracle, same)."""
     if par > 1 and len(cases) > par:
@@ -32,6 +35,12 @@ def run_cases(wc, pid, cases, timeout=900, sub=None, par=1):
                 res[k + j * par] = r
         return res
     hname = sub or pid
+    # long-lived harness processes accumulate sockets and goroutines of shut-down sessions: restart every BATCH cases
+    if len(cases) > BATCH:
+        res = []
+        for i in range(0, len(cases), BATCH):
+            res.extend(run_cases(wc, pid, cases[i:i + BATCH], timeout, sub, 1))
+        return res
     obs = [None] * len(cases)
     start = 0
     # the harness may die on a case (runtime fatal error): mark it CRASH and go on
